@@ -14,8 +14,8 @@ def jobs(tier):
     def add(module, func, tags, functions, budget=b, **extra):
         out.append(dict(id='e2.%s.%s' % (module.split('.')[-1], func), engine='E2', module=module, func=func, params={'engine': 'CrossHair', 'per_condition_timeout_s': budget},
                         tags=tags.split(','), functions=functions, budget_s=budget, weight=50, twin=False, **extra))
-    for f in ('rt_str', 'rt_bytes', 'rt_int', 'rt_stream', 'rt_float', 'rt_float_special', 'rt_misc'):
-        add('obligations.ch.disk_rt', f, 'C01,C08' if f in ('rt_str', 'rt_bytes', 'rt_stream') else 'C01', C01_F)
+    for f in ('rt_str', 'rt_str_file', 'rt_bytes', 'rt_int', 'rt_stream', 'rt_float', 'rt_float_special', 'rt_misc'):
+        add('obligations.ch.disk_rt', f, 'C01,C08' if f in ('rt_str', 'rt_str_file', 'rt_bytes', 'rt_stream') else 'C01', C01_F)
     for f in ('key_rt_int', 'key_rt_str', 'key_rt_bytes', 'key_rt_boundary', 'key_put_float', 'alias_int_int', 'alias_int_float_boundary',
               'alias_str_bytes', 'alias_str_str', 'alias_bytes_bytes', 'alias_native_vs_pickled', 'alias_bytes_equal_to_pickle'):
         add('obligations.ch.keys', f, 'C02', C02_F)
